@@ -33,11 +33,12 @@ ASSUMPTIONS = [
 ]
 
 PRIMES = [2, 3, 5, 7, 11, 13, 17, 19, 23, 29, 31, 37, 41, 43, 47, 53, 59, 61, 67, 71]
-RATE_PRIME = {"kf": 101, "kb": 103}
+RATE_PRIME = {"kf": 101, "kb": 103, "c0": 107}
 # constant / call forms: Fraction primes with n*e, e*n, numpy integers; sympy symbols with int and
 # sympy.Integer multipliers; "mix": odd bases Fraction primes, even bases symbols (products mix both)
 MODES = ("frac", "sym", "frac-rmul", "sym-int", "mix", "frac-np")
 BIG = 10 ** 6
+LOOK_FAILED = object()
 NREGS_OBS = 4  # registers listed in every observation (= NRegs of EqArithTrace.cfg)
 
 
@@ -168,6 +169,15 @@ def _project_rxn(obj, names, sym, want_cls):
     return o
 
 
+def _project_safe(obj, names, sym, want_cls):
+    """total projection: whatever the object holds, the result is an observation (never an exception)"""
+    try:
+        return _project_rxn(obj, names, sym, want_cls)
+    except Exception as exc:
+        return {"raised": False, "exc": "", "bad": "unprojectable " + type(exc).__name__, "reac": {}, "prod": {},
+                "kexp": {}, "rest": [1, 1]}
+
+
 def _raised(exc):
     return {"raised": True, "exc": type(exc).__name__, "bad": "", "reac": {}, "prod": {}, "kexp": {},
             "rest": [1, 1], "m": [0, 0]}
@@ -204,7 +214,7 @@ class Machine(object):
             allr = []
             for r in range(1, NREGS_OBS + 1):
                 if r in self.regs:
-                    p = _project_rxn(self.regs[r], self.names, self.sym, "Equilibrium")
+                    p = _project_safe(self.regs[r], self.names, self.sym, "Equilibrium")
                     p["loaded"] = True
                 else:
                     p = {"raised": False, "exc": "", "bad": "", "reac": {}, "prod": {}, "kexp": {}, "rest": [1, 1],
@@ -268,10 +278,15 @@ class Machine(object):
                     self.regs[h["r"]].as_reactions()
                     return {"raised": False, "exc": "", "bad": "not refused"}
                 k = self.const(w, RATE_PRIME[w])
-                fw, bw = self.regs[h["r"]].as_reactions(**{w: k})
+                kw = {w: k}
+                if h.get("c0") == "c0":
+                    # a units module whose standard concentration is one more exact constant
+                    import types
+                    kw["units"] = types.SimpleNamespace(molar=self.const("c0", RATE_PRIME["c0"]))
+                fw, bw = self.regs[h["r"]].as_reactions(**kw)
                 o = {"raised": False, "exc": "", "bad": "",
-                     "fw": _project_rxn(fw, self.names, self.sym, "Reaction"),
-                     "bw": _project_rxn(bw, self.names, self.sym, "Reaction")}
+                     "fw": _project_safe(fw, self.names, self.sym, "Reaction"),
+                     "bw": _project_safe(bw, self.names, self.sym, "Reaction")}
                 o["bad"] = o["fw"]["bad"] or o["bw"]["bad"]
                 return o
             else:
@@ -280,7 +295,7 @@ class Machine(object):
             raise
         except Exception as exc:  # the observation is "raised"
             return _raised(exc)
-        o = _project_rxn(e, self.names, self.sym, "Equilibrium")
+        o = _project_safe(e, self.names, self.sym, "Equilibrium")
         if not o["bad"]:
             self.regs[h["r"]] = e
         return o
@@ -454,6 +469,13 @@ def gen_history(arg):
         b = rng.randrange(nb)
         if not do({"op": "Load", "r": r, "b": "b%d" % (b + 1), "reac": bases[b][0], "prod": bases[b][1]}):
             return hist, mode, obs, absvs
+    def look(fn):
+        # inspecting the real objects must not crash the generator either: a failure ends the history
+        try:
+            return fn()
+        except Exception:
+            return LOOK_FAILED
+
     while len(hist) < nops:
         r = rng.randint(1, nregs)
         q = rng.randint(1, nregs)
@@ -469,28 +491,36 @@ def gen_history(arg):
         elif x < 0.52:
             h = {"op": "Add", "r": r, "q": q}
         elif x < 0.70:
-            if r == q or m.regs[r] == m.regs[q]:
+            same = look(lambda: r == q or bool(m.regs[r] == m.regs[q]))
+            if same is LOOK_FAILED:
+                break
+            if same:
                 continue
             h = {"op": "Sub", "r": r, "q": q}
         elif x < 0.85:
             if r == q:
                 continue
             # (the helper's multipliers grow like p^(v/p): keep the listed coefficients small)
-            shared = sorted(k for k in m.regs[r].keys() & m.regs[q].keys()
-                            if 0 < abs(m.net(r, k)) <= 12 and 0 < abs(m.net(q, k)) <= 12)
+            shared = look(lambda: sorted(k for k in m.regs[r].keys() & m.regs[q].keys()
+                                         if 0 < abs(m.net(r, k)) <= 12 and 0 < abs(m.net(q, k)) <= 12))
+            if shared is LOOK_FAILED:
+                break
             if not shared:
                 continue
             s = rng.choice(shared)
             h = {"op": "Eliminate", "r": r, "q": q, "s": s}
             absvs[len(hist)] = "%d,%d" % (abs(m.net(r, s)), abs(m.net(q, s)))
         elif x < 0.93:
-            if r == q or any(m.net(q, k) == 0 for k in m.regs[q].keys()):
+            undef = look(lambda: r == q or any(m.net(q, k) == 0 for k in m.regs[q].keys()))
+            if undef is LOOK_FAILED:
+                break
+            if undef:
                 continue
             h = {"op": "Cancel", "r": r, "q": q}
         else:
-            h = {"op": "AsReactions", "r": r, "which": rng.choice(["kf", "kb"])}
+            h = {"op": "AsReactions", "r": r, "which": rng.choice(["kf", "kb"]), "c0": rng.choice(["one", "c0"])}
             if rng.random() < 0.1:
-                do({"op": "AsReactions", "r": r, "which": rng.choice(["both", "none"])})
+                do({"op": "AsReactions", "r": r, "which": rng.choice(["both", "none"]), "c0": "one"})
                 break
         if not do(h):
             break
